@@ -159,7 +159,7 @@ class Installer:
         """Create directories/links for one TLC row; returns the job description."""
         comps = row["comps"]
         given = [bytes.fromhex(x) for x in row["names"]] if row.get("names") else None      # a repeat / replay: the recorded names
-        for _ in range(20):
+        for _ in range(400):          # (short multi-byte names are few: 30 of 5 bytes; several configurations share the root)
             names = given or [make_name(self.rnd, c["len"], c["cls"]) for c in comps]
             if row["cfg"]["pat"] == "same":                 # the file and every directory above it carry the same name
                 names = [names[0]] * len(names)
@@ -187,6 +187,30 @@ class Installer:
         argv0, cwd, link = real, self.root, None
         if via == "relative":
             cwd, argv0 = d, b"./" + names[-1]
+        elif via == "relcwd":           # a relative path from somewhere else: the scratch root
+            cwd, argv0 = self.root, b"/".join(names) if len(names) > 1 else b"./" + names[0]
+        elif via == "path":             # a bare name, found through PATH (a directory whose name contains ':' cannot be
+            argv0 = names[-1]           # named in PATH: then PATH is "." and the working directory is the directory)
+            cwd = d
+        elif via in ("chain2", "longlink"):
+            def fresh(n):
+                while True:
+                    ln = make_name(self.rnd, n, "ascii")
+                    if ln not in self.used_links and ln not in self.reserved and not os.path.lexists(self.root + b"/" + ln):
+                        self.used_links.add(ln)
+                        return ln
+            inside = (lambda x: x[len(self.root):]) if self.jail else (lambda x: x)
+            if via == "chain2":
+                l1, l2 = self.root + b"/" + fresh(4), self.root + b"/" + fresh(5)
+                os.symlink(inside(real), l1)
+                os.symlink(inside(l1), l2)
+                argv0 = link = l2
+            else:
+                ld = self.root + b"/" + fresh(200)
+                os.makedirs(ld)
+                link = ld + b"/" + make_name(self.rnd, 230, "ascii")
+                os.symlink(inside(real), link)
+                argv0 = link
         elif via in ("filelink", "dirlink"):
             while True:
                 ln = make_name(self.rnd, 4, "ascii")
@@ -211,7 +235,7 @@ class Installer:
             ev = {"op": "Run", "k": 1, "a": {"cfg": row["cfg"], "h": h}, "comps": comps, "names": [n.hex() for n in names]}
             if self.bld:
                 ev["bld"] = self.bld
-        return {"ev": ev, "argv0": argv0, "cwd": cwd, "real": real, "jail": self.jail, "fake": via == "fakeargv0",
+        return {"ev": ev, "argv0": argv0, "cwd": cwd, "real": real, "jail": self.jail, "fake": via == "fakeargv0", "bypath": via == "path",
                 "noproc": row.get("op") == "Blind"}
 
 
@@ -238,7 +262,12 @@ os.execv(a0, [a0])
 '''
 
 
-FAKE_ARGV0_SCRIPT = "import os, resource, sys; resource.setrlimit(resource.RLIMIT_CPU, (2, 3)); os.execv(sys.argv[1], ['-not-the-program'])"
+# PATH look-up of a bare name (execvp): argv[1] = the name, argv[2] = the directory
+PATH_SCRIPT = ("import os, resource, sys; resource.setrlimit(resource.RLIMIT_CPU, (2, 3)); n = os.fsencode(sys.argv[1]); d = os.fsencode(sys.argv[2]); "
+               "e = dict(os.environb); e[b'PATH'] = b'.' if b':' in d else d; os.chdir(d if b':' in d else b'/'); os.execvpe(n, [n], e)")
+# argv[0] is a word unrelated to the program: not a file name at all, or the absolute path of ANOTHER existing program
+FAKE_ARGV0_SCRIPT = "import os, resource, sys; resource.setrlimit(resource.RLIMIT_CPU, (2, 3)); os.execv(sys.argv[1], [sys.argv[2]])"
+FAKE_WORDS = ["-not-the-program", "/bin/sh", "sh", "../../bin/sh"]
 
 
 class Budget:
@@ -278,9 +307,12 @@ def run_helper(job):
         cmd = ["unshare", "-m", "--propagation", "private", sys.executable, "-c", JAIL_SCRIPT, job["jail"], job["cwd"], job["argv0"]] + \
               (["noproc"] if job.get("noproc") else [])
         cwd = None
+    elif job.get("bypath"):
+        cmd = [sys.executable, "-c", PATH_SCRIPT, job["argv0"], job["cwd"]]
+        cwd = job["cwd"]
     elif job.get("fake"):
         # argv[0] is an unrelated word (as for a login shell, or a program found through PATH and started by a launcher)
-        cmd = [sys.executable, "-c", FAKE_ARGV0_SCRIPT, job["argv0"]]
+        cmd = [sys.executable, "-c", FAKE_ARGV0_SCRIPT, job["argv0"], FAKE_WORDS[len(job["argv0"]) % len(FAKE_WORDS)]]
         cwd = job["cwd"]
     else:
         cmd = ["/bin/sh", "-c", 'ulimit -t 2; exec "$0"', job["argv0"]]
@@ -533,6 +565,12 @@ def run(ctx):
     inst2.bld = "clangO2"
     inst2.used_links = inst.used_links
     runs.sort(key=lambda x: json.dumps(x["cfg"], sort_keys=True))
+    # more names per configuration: the short configurations (where the character classes vary most) are installed again
+    # under further names drawn from the seed - every character class of a pattern is met in several spellings
+    reps = 2 if q else 4
+    again = [x for x in runs if x["cfg"]["total"] == 0 and x["cfg"]["via"] in ("direct", "path", "relcwd") and x["cfg"]["pat"] not in ("same", "one")]
+    runs = runs + [x for _ in range(reps - 1) for x in again]
+    ctx.notes["further_name_draws"] = (reps - 1) * len(again)
     jobs = [(inst2 if i % 3 == 2 else inst).materialise(x) for i, x in enumerate(runs)]
     for j, x in zip(jobs, runs):
         if len(j["real"]) != x["res"]["bytes"]:
@@ -597,13 +635,15 @@ def run(ctx):
              "EXACTLY %s bytes (depth = minimum needed + %s), components <= 255 bytes, name patterns %s (odd = control characters incl. "
              "newline / leading '-' or '.' / '...', '..x', trailing '.' / multi-byte characters only / ending in ' (deleted)' / leading or "
              "trailing blank; same = the file and all its directories carry one name; one = single-character names), started %s; "
-             "one helper run per configuration (two builds of the helper), both functions called twice with a chdir in between, each "
-             "returned string described per component (length, class, 30-bit hash) and compared by TLC with the spec's component "
-             "lists; names are drawn from VERIF_SEED. endianness(): one run, compared with the memory image of 0x01020304 the helper "
-             "reads itself."
+             "one helper run per configuration and name draw (the short configurations started directly / through PATH / by a relative "
+             "path from elsewhere are installed under %d further sets of names; two builds of the helper), both functions called twice "
+             "with a chdir in between, each returned string described per component (length, class, 30-bit hash) and compared by TLC "
+             "with the spec's component lists; second route: the file at the returned path has the device and inode of /proc/self/exe, "
+             "and the prefix is a leading substring of the path; names are drawn from VERIF_SEED. endianness(): one run, compared with "
+             "the memory image of 0x01020304 the helper reads itself (xplatform.hpp has no configuration macro: the answer is computed at run time)."
              % (len(root), "1,2,6" if q else "1..6", sorted({x["cfg"]["total"] for x in runs if x["cfg"]["total"]}),
                 "{0,3}" if q else "{0,1,5}", sorted({x["cfg"]["pat"] for x in runs}),
-                sorted({x["cfg"]["via"] for x in runs})),
+                sorted({x["cfg"]["via"] for x in runs}), reps - 1),
         assumptions=["Linux with /proc mounted: /proc/self/exe names the running image (the resolved file, not the symlink used to start it, "
                      "whatever argv[0] says). Without /proc the statement promises nothing (the functions cannot know); the chroot stage "
                      "only checks that the calls return without a sanitizer report there",
@@ -612,5 +652,8 @@ def run(ctx):
                      "path and must be reported exactly (class delsfx)",
                      "AddressSanitizer is the observer for 'does not read or write outside its buffer' (a report ends the trace with a Crash event)",
                      "the executable always has a grandparent directory here (the scratch root is 4 levels deep); /x and /d/x are not reachable without a chroot",
-                     "paths longer than PATH_MAX-1 (reachable only by relative exec) and non-Linux branches are not explored"],
+                     "every run starts a hard link of one helper binary (the scratch build is linked, not copied, to each location): the answer must be "
+                     "the name the program was started through, not the name it was built under",
+                     "paths longer than PATH_MAX-1 (reachable only by relative exec) and the non-Linux branches (Windows, macOS, FreeBSD, Solaris: "
+                     "not compiled against stub headers either) are not explored"],
         exhaustive=False)
